@@ -952,11 +952,13 @@ fn boundary_value(rng: &mut Rng, width: u8, len: usize, old: u32) -> u32 {
     // the small values and neighbours of the old value are where most off-by-one and
     // emptiness assumptions live: give them a third of the draws
     if rng.pct(34) {
-        let v = match rng.below(6) {
+        let v = match rng.below(7) {
             0 | 1 => 0,
             2 => 1,
             3 => old.wrapping_add(1),
             4 => old.wrapping_sub(1),
+            // a handful of bytes: shorter than any header that is about to be read
+            5 => 2 + rng.below(7) as u32,
             _ => max,
         };
         return v & max;
